@@ -5,7 +5,7 @@ ID = "C16"
 HARNESS = "c16"
 N_CASES = {"quick": 320, "thorough": 3000}
 N_SEARCH = {"quick": 1, "thorough": 2}
-SHARD = 30
+SHARD = 64
 HAS_MODEL_OUT = True
 RULE = ("pair lists written with the real writer and read back with Find / FindStart+FindNext (one shared Context), "
         "Data, Reader.First/Exists, then Dump and Make: "
